@@ -214,12 +214,60 @@ Definition recover (y : sys) : res sys :=
   | RPanic => Panic
   end.
 
+(* ---- a flush cut short by a crash (C04): only the dirty pages named in W reach the file,
+   the header does not. Modelled when cache and file differ only inside leaves (no page was
+   allocated and no internal node changed since the last completed flush); any other flush has
+   a structural change in flight and is outside the model (`None`). ---- *)
+Fixpoint merge_tree (W : list N) (d m : tree) {struct d} : option tree :=
+  match d, m with
+  | TLeaf od _ _ _ _ _ _ _, TLeaf om _ _ _ _ _ _ _ =>
+      if N.eqb od om then Some (if existsb (N.eqb od) W then clean_tree m else d) else None
+  | TNode od ld _ kd rd, TNode om lm dm km rm =>
+      if N.eqb od om && N.eqb ld lm && negb dm then
+        match (fix go (a : list (N * tree)) (b : list (N * tree)) : option (list (N * tree)) :=
+                 match a, b with
+                 | [], [] => Some []
+                 | (sa, ca) :: ra, (sb, cb) :: rb =>
+                     if N.eqb sa sb then
+                       match merge_tree W ca cb, go ra rb with
+                       | Some c, Some r => Some ((sa, c) :: r)
+                       | _, _ => None
+                       end
+                     else None
+                 | _, _ => None
+                 end) kd km, merge_tree W rd rm with
+        | Some k, Some r => Some (TNode od ld false k r)
+        | _, _ => None
+        end
+      else None
+  | _, _ => None
+  end.
+
+Fixpoint merge_forest (W : list N) (d m : list tree) : option (list tree) :=
+  match d, m with
+  | [], [] => Some []
+  | a :: ra, b :: rb => match merge_tree W a b, merge_forest W ra rb with
+                        | Some t, Some r => Some (t :: r)
+                        | _, _ => None
+                        end
+  | _, _ => None
+  end.
+
+Definition torn_disk (y : sys) (W : list N) : option store :=
+  if N.eqb (nextFree (mem y)) (nextFree (disk y)) && N.eqb (ptRoot (mem y)) (ptRoot (disk y)) then
+    match merge_forest W (forest (disk y)) (forest (mem y)) with
+    | Some f => Some (set_forest (disk y) f)
+    | None => None
+    end
+  else None.
+
 (* ---- event histories ---- *)
 Inductive event :=
 | EvStmt (st : stmt)
 | EvFlush                   (* the 100 ms ticker fires at a statement boundary *)
 | EvCrash                   (* crash + restart (recovery) at a statement boundary *)
-| EvCrashInLog (st : stmt) (j : nat).
+| EvCrashInLog (st : stmt) (j : nat)
+| EvTornFlush (W : list N).
   (* the statement runs, but the process dies while its batch is being appended: only the
      first j records reach the log; then restart *)
 
@@ -237,6 +285,15 @@ Definition step (y : sys) (ev : event) : sysres * option outcome :=
       let d := if e_flushed e then e_store e else disk y in
       match recover (mkSys d d w') with
       | Ok y1 => (SOk y1, None) | Err x => (SFail x, None) | Panic => (SPanic, None)
+      end
+  | EvTornFlush W =>
+      (* the process dies inside flushPages after writing exactly the pages in W (no header);
+         then restart *)
+      match torn_disk y W with
+      | Some d => match recover (mkSys d d (wal y)) with
+                  | Ok y1 => (SOk y1, None) | Err x => (SFail x, None) | Panic => (SPanic, None)
+                  end
+      | None => (SFail EUnmodelled, None)
       end
   end.
 
